@@ -33,7 +33,7 @@ COMPONENTS = {
 }
 ASSUMPTIONS = ['an exception raised by user code on the hint side (hint.__hash__/__eq__/__repr__) and escaping unchanged counts as pass-through, not as a leak',
                'door functions may raise any public BeartypeException subclass for a bad hint; the Decor/Call split is asserted for @beartype only']
-PROBES = ['faults_fired', 'fault_in_explanation_path', 'fault_typeerror', 'healthy_after_fault', 'bad_hint_raised', 'bad_hint_cases', 'fault_cases']
+PROBES = ['faults_fired', 'fault_in_explanation_path', 'fault_typeerror', 'healthy_after_fault', 'bad_hint_raised', 'bad_hint_cases', 'fault_cases', 'gram_cases', 'gram_raised', 'gram_unbuildable']
 
 
 def tiers(tier):
@@ -64,7 +64,15 @@ def generate(rng, run, tier):
                 'n': rng.choice([1, 1, 2, 2, 3]), 'entry': rng.choice(entry.ENTRY_POINTS), 'bad_obj': rng.random() < 0.5,
                 'draw': rng.choice([0, 1, 5]), 'conf': rng.choice([{'is_color': False}, {'is_color': False, 'vt': 'warn'},
                                                                      {'is_color': False, 'vt': 'exc'}])}
-    return {'mode': 'badhint', 'hint': rng.choice(BAD_HINTS), 'api': rng.choice(APIS), 'draw': 0}
+    if rng.random() < 0.25:
+        return {'mode': 'badhint', 'hint': rng.choice(BAD_HINTS), 'api': rng.choice(APIS), 'draw': 0}
+    from sim import hintjunk as J
+    # avoid switch for known finding C11-deeply-nested-hint: hints nested 100+ levels deep appear only in a small, directed
+    # fraction of the cases (J.gen() leaves the 'deep_*' atoms out unless asked)
+    deep = rng.random() < 0.04
+    return {'mode': 'gram', 'hint': J.gen(rng, rng.choice([0, 1, 1, 2, 2, 3]), deep), 'other': J.gen(rng, rng.choice([0, 0, 1, 2])),
+            'api': rng.choice(GRAM_APIS), 'obj': rng.choice(list(J.OBJECTS)), 'draw': rng.choice([0, 1, 7]),
+            'gconf': rng.choice([None, None, 'tower', 'overrides', 'warn'])}
 
 
 # ------------------------------------------------------------------ fault half
@@ -415,6 +423,131 @@ def _run_badhint(case):
     return probes, viol
 
 
+GRAM_APIS = ['decorate_param', 'decorate_return', 'is_bearable', 'die_if_unbearable', 'typehint_use', 'is_subhint_left',
+             'is_subhint_right', 'is_subhint_self', 'decorate_both']
+
+
+def _site(e):
+    """(innermost beartype frame, innermost frame) of the traceback: names the leak independently of the input."""
+    tb = e.__traceback__
+    last_bt = None
+    last = None
+    while tb is not None:
+        co = tb.tb_frame.f_code
+        fn = co.co_filename
+        base = fn.rsplit('/', 1)[-1]
+        if '/beartype/' in fn and '/verif/' not in fn:
+            last_bt = '%s:%s' % (base, co.co_name)
+        if '/verif/' not in fn:
+            last = '%s:%s' % (base, co.co_name)
+        tb = tb.tb_next
+    return '%s<-%s' % (last, last_bt) if last != last_bt else str(last_bt)
+
+
+def _run_gram(case):
+    import beartype.roar as roar
+    from beartype import BeartypeConf, beartype, door
+    from sim import boot, hintjunk as J
+    probes = {k: 0 for k in PROBES}
+    probes['gram_cases'] = 1
+    api = case['api']
+    try:
+        hint = J.build(case['hint'])
+        other = J.build(case['other']) if api in ('is_subhint_left', 'is_subhint_right') else None
+    except J.Unbuildable:
+        probes['gram_unbuildable'] = 1
+        return probes, None
+    x = J.OBJECTS[case['obj']]()
+    boot.SAMPLER.sticky = case.get('draw', 0)
+    viol = None
+    gconf = case.get('gconf')
+    if gconf == 'tower':
+        conf = BeartypeConf(is_pep484_tower=True, is_color=False)
+    elif gconf == 'overrides':
+        from beartype import FrozenDict
+        import typing as _t
+        conf = BeartypeConf(hint_overrides=FrozenDict({bytes: _t.Union[bytes, bytearray]}), is_color=False)
+    elif gconf == 'warn':
+        conf = BeartypeConf(violation_type=UserWarning, is_color=False)
+    else:
+        conf = BeartypeConf(is_color=False)
+    stage = 'door'
+    with warnings.catch_warnings(record=True) as wlist:
+        warnings.simplefilter('always')
+        # the operation is performed twice, the second time with a freshly built (equal, distinct) hint object: a leak may
+        # depend on what an earlier call left behind in beartype's caches
+        for attempt in (1, 2):
+            stage = 'decoration' if api.startswith('decorate') else 'door'
+            if attempt == 2:
+                try:
+                    hint = J.build(case['hint'])
+                    other = J.build(case['other']) if api in ('is_subhint_left', 'is_subhint_right') else None
+                except J.Unbuildable:
+                    break
+            try:
+                if api.startswith('decorate'):
+                    def f(a):
+                        return a
+                    if api == 'decorate_param':
+                        f.__annotations__ = {'a': hint}
+                    elif api == 'decorate_return':
+                        f.__annotations__ = {'return': hint}
+                    else:
+                        f.__annotations__ = {'a': hint, 'return': hint}
+                    g = beartype(conf=conf)(f)
+                    stage = 'call'
+                    g(x)
+                elif api == 'is_bearable':
+                    door.is_bearable(x, hint, conf=conf)
+                elif api == 'die_if_unbearable':
+                    door.die_if_unbearable(x, hint, conf=conf)
+                elif api == 'typehint_use':
+                    th = door.TypeHint(hint)
+                    repr(th)
+                    len(th)
+                    list(th)
+                    th == th
+                    try:
+                        hash(th)
+                    except TypeError:
+                        pass        # (TypeError is what Python prescribes for hash() of a wrapper around an unhashable hint)
+                    th.is_ignorable
+                    th.is_bearable(x)
+                elif api == 'is_subhint_left':
+                    door.is_subhint(hint, other)
+                elif api == 'is_subhint_right':
+                    door.is_subhint(other, hint)
+                else:
+                    door.is_subhint(hint, hint)     # (reflexivity itself belongs to C19; only exceptions matter here)
+            except BaseException as e:      # noqa
+                probes['gram_raised'] = 1
+                if isinstance(e, roar.BeartypeCallHintViolation):
+                    continue        # a plain rejection of the object
+                name = type(e).__name__
+                public = isinstance(e, roar.BeartypeException) and not name.startswith('_') and hasattr(roar, name)
+                if not public:
+                    site = _site(e)
+                    viol = ('leaked_exception', '%s(%s)%s with hint %s (%s)%s at %s time raised %s: %s   [raised in %s]' % (
+                        api, case['obj'], ' [second call]' if attempt == 2 else '', J.show(case['hint']), _safe_repr(hint),
+                        ' conf=%s' % gconf if gconf else '', stage, name, str(e)[:300], site),
+                        'leak:%s:%s' % (name, site))
+                elif stage == 'decoration' and not isinstance(e, roar.BeartypeDecorException):
+                    viol = ('wrong_family', '%s with hint %s raised %s at decoration time (not a BeartypeDecorException): %s' % (
+                        api, J.show(case['hint']), name, str(e)[:200]), 'family_decor:' + name)
+                elif stage == 'call' and not isinstance(e, (roar.BeartypeCallException,)):
+                    viol = ('wrong_family', '%s with hint %s raised %s at call time (not a BeartypeCallException): %s' % (
+                        api, J.show(case['hint']), name, str(e)[:200]), 'family_call:' + name)
+                if viol:
+                    break
+    if viol is None:
+        for w in wlist:
+            if not issubclass(w.category, roar.BeartypeWarning) and '/beartype/' in (w.filename or ''):
+                viol = ('foreign_warning', '%s with hint %s emitted %s: %s' % (api, J.show(case['hint']), w.category.__name__, str(w.message)[:200]),
+                        'warning:' + w.category.__name__)
+                break
+    return probes, viol
+
+
 def _safe_repr(o):
     try:
         return repr(o)[:80]
@@ -427,9 +560,11 @@ def execute(case):
     boot.SAMPLER.reset()
     if case['mode'] == 'fault':
         probes, viol = _run_fault(case)
+    elif case['mode'] == 'gram':
+        probes, viol = _run_gram(case)
     else:
         probes, viol = _run_badhint(case)
-    out = {'digest': kernel.stable_hash(case), 'nontrivial': bool(probes['faults_fired'] or probes['bad_hint_raised']),
+    out = {'digest': kernel.stable_hash(case), 'nontrivial': bool(probes['faults_fired'] or probes['bad_hint_raised'] or probes['gram_raised']),
            'probes': probes, 'stats': {'cb_raise': probes['faults_fired']}, 'violation': None}
     if viol:
         out['violation'] = {'kind': viol[0], 'detail': viol[1][:2000], 'key': viol[2]}
@@ -444,9 +579,35 @@ def shrink(case, violation):
             yield dict(case, conf={'is_color': False})
         if case['n'] > 1:
             yield dict(case, n=case['n'] - 1)
+    elif case['mode'] == 'gram':
+        from sim import hintjunk as J
+        for t in J.shrinks(case['hint']):
+            yield dict(case, hint=t)
+        if case['api'] in ('is_subhint_left', 'is_subhint_right'):
+            for t in J.shrinks(case['other']):
+                yield dict(case, other=t)
+            if case['other'] != {'a': 'int'}:
+                yield dict(case, other={'a': 'int'})
+        if case['obj'] != 'int1':
+            yield dict(case, obj='int1')
+        if case.get('draw'):
+            yield dict(case, draw=0)
+        if case.get('gconf'):
+            yield dict(case, gconf=None)
 
 
-SIGNATURES = {}
+def _sig_deep(case, v):
+    """Known finding C11-deeply-nested-hint: a hint nested 100+ levels deep overflows Python's parser / recursion limit."""
+    if case.get('mode') != 'gram' or v.get('kind') != 'leaked_exception':
+        return False
+    from sim import hintjunk as J
+    if not (J.mentions(case['hint'], J.DEEP_ATOMS) or J.mentions(case.get('other') or {'a': 'int'}, J.DEEP_ATOMS)):
+        return False
+    key = v.get('key', '')
+    return key.startswith('leak:RecursionError:') or key.startswith('leak:_BeartypeUtilCallableException:utilfuncmake.py:make_func')
+
+
+SIGNATURES = {'deeply_nested_hint': _sig_deep}
 
 
 def describe(case):
